@@ -118,6 +118,8 @@ def run_ch(path, func, timeout, templates):
     out["message"] = worst.message[:2000]
     if worst.state == MessageType.CONFIRMED:
         out["verdict"] = "confirmed"
+    elif worst.state in (MessageType.EXEC_ERR, MessageType.POST_ERR) and worst.message.startswith("Unsupported:"):
+        out["reason"] = "a stand-in does not model an operation the code under test now uses: " + worst.message[:300]
     elif worst.state in (MessageType.POST_FAIL, MessageType.EXEC_ERR, MessageType.POST_ERR):
         out["verdict"] = "counterexample"
         out["args"] = parse_call_args(worst.message, func)
